@@ -555,7 +555,13 @@ func (na *NilAn) factMatch(kind, d, aux string) (func(Atom) bool, func(*ssa.Func
 							return false
 						}
 						ha, ok := accOfFn(h, a.Want)
-						if !ok || !fa.inFn(h, ha).holds {
+						if !ok {
+							return false
+						}
+						// (the name list may reach the validator as an argument: seen with its parameters bound)
+						held := false
+						bindCall(c, h, func() { held = fa.OnAccept(h, ha).Holds })
+						if !held {
 							return false
 						}
 					}
